@@ -122,6 +122,13 @@ type VC struct {
 	depth     int
 	inlined   map[string]bool
 	groundUsed map[string]bool
+	memo       map[string]string
+	defLine    map[string]int
+	defLineN   int
+	splitOK    bool
+	pending    []branchOut
+	workDir    string
+	nfeas      int
 	rets      []inlRet
 }
 
@@ -301,7 +308,7 @@ func globalHeap(g *ssa.Global) string {
 // heapSortByName recovers the sort of a heap variable from program types (used when a
 // modset names a heap this VC has not touched yet).
 func (vc *VC) heapSortByName(name string) string {
-	if s, ok := vc.P.heapSorts()[name]; ok {
+	if s, ok := vc.P.heapSortFn(name); ok {
 		return s(vc)
 	}
 	if name == "$next" {
@@ -901,17 +908,57 @@ func (vc *VC) block(b *ssa.BasicBlock) {
 		}
 		vc.reach[b] = vc.cur
 	}
-	for _, ins := range b.Instrs {
-		if _, ok := ins.(*ssa.Phi); ok {
-			continue
-		}
-		vc.curInstr = ins
-		vc.instr(ins)
-	}
+	// a block that ends in a return is a tail: when an inlined call in it comes back on several paths,
+	// the rest of the block is verified once per path instead of on a merged state (smaller, simpler goals)
+	_, endsInReturn := b.Instrs[len(b.Instrs)-1].(*ssa.Return)
+	vc.runInstrs(b, 0, endsInReturn)
 	vc.curInstr = nil
 	if _, ok := vc.outSt[b]; !ok {
 		vc.outSt[b] = vc.st
 		vc.outReach[b] = vc.cur
+	}
+}
+
+func (vc *VC) runInstrs(b *ssa.BasicBlock, from int, split bool) {
+	for i := from; i < len(b.Instrs); i++ {
+		ins := b.Instrs[i]
+		if _, ok := ins.(*ssa.Phi); ok {
+			continue
+		}
+		vc.curInstr = ins
+		if call, ok := ins.(*ssa.Call); ok && split {
+			vc.splitOK = true
+			vc.pending = nil
+			vc.instr(ins)
+			vc.splitOK = false
+			if brs := vc.pending; len(brs) > 1 {
+				vc.pending = nil
+				for _, br := range brs {
+					vc.cur, vc.st = br.cur, br.st
+					vc.assignCallResults(call, br.res)
+					vc.runInstrs(b, i+1, split)
+				}
+				return
+			}
+			vc.pending = nil
+			continue
+		}
+		vc.instr(ins)
+	}
+}
+
+func (vc *VC) assignCallResults(ins *ssa.Call, res []string) {
+	sig := ins.Common().Signature()
+	switch sig.Results().Len() {
+	case 0:
+	case 1:
+		if len(res) == 1 {
+			vc.vals[ins] = res[0]
+		} else {
+			vc.vals[ins] = vc.declare(ins.Name(), vc.pre.sortOf(ins.Type()))
+		}
+	default:
+		vc.tuples[ins] = res
 	}
 }
 
@@ -1184,18 +1231,7 @@ func (vc *VC) instr(ins ssa.Instruction) {
 		// handled at block entry
 	case *ssa.Call:
 		res := vc.call(ins, ins.Common())
-		sig := ins.Common().Signature()
-		switch sig.Results().Len() {
-		case 0:
-		case 1:
-			if len(res) == 1 {
-				vc.vals[ins] = res[0]
-			} else {
-				vc.vals[ins] = vc.declare(ins.Name(), vc.pre.sortOf(ins.Type()))
-			}
-		default:
-			vc.tuples[ins] = res
-		}
+		vc.assignCallResults(ins, res)
 	case *ssa.Extract:
 		tup, ok := vc.tuples[ins.Tuple]
 		if !ok || ins.Index >= len(tup) {
@@ -1235,7 +1271,7 @@ func (vc *VC) instr(ins ssa.Instruction) {
 		n, s := vc.arrHeap(st.Elem())
 		l := vc.val(ins.Len)
 		vc.safety("makeslice: len out of range", fmt.Sprintf("(>= %s 0)", l))
-		vc.setH(vc.st, n, s, fmt.Sprintf("(store %s %s ((as const (Array Int %s)) %s))", vc.getH(vc.st, n, s), r, vc.pre.sortOf(st.Elem()), vc.pre.zeroOf(st.Elem())))
+		vc.setH(vc.st, n, s, fmt.Sprintf("(store %s %s %s)", vc.getH(vc.st, n, s), r, vc.pre.zeroOf(types.NewArray(st.Elem(), 0))))
 		vc.setVal(ins, fmt.Sprintf("(mk_slice %s 0 %s)", r, l))
 	case *ssa.Slice:
 		vc.sliceOp(ins)
@@ -1876,7 +1912,9 @@ func (vc *VC) finish() {
 		if !used {
 			continue
 		}
-		env := &Env{vc: vc, pkgPath: vc.P.Spec.AxiomPkg[ax], vars: map[string]TV{}, cur: &State{h: map[string]string{}}, old: &State{h: map[string]string{}}, clause: ax}
+		env := &Env{vc: vc, pkgPath: vc.P.Spec.AxiomPkg[ax], vars: map[string]TV{}, cur: &State{h: map[string]string{}}, old: &State{h: map[string]string{}}, clause: ax, strong: true}
+		var axSide []string
+		env.side = &axSide
 		func() {
 			defer func() {
 				if r := recover(); r != nil {
@@ -1888,6 +1926,9 @@ func (vc *VC) finish() {
 				}
 			}()
 			t := env.eval(ax.E)
+			if len(axSide) > 0 {
+				t.T = "(and " + strings.Join(axSide, " ") + " " + t.T + ")"
+			}
 			fmt.Fprintf(&b, "(assert %s) ; axiom %s:%d\n", t.T, filepathBase(ax.File), ax.Line)
 		}()
 	}
